@@ -260,16 +260,23 @@ def proof_step(pid):
         info["error"] = "no Props file"
         return False, info
     names = theorems_in(props)
+    # Props/<pid>Src.lean: theorems over definitions translated from the source, kept in their own
+    # module so that other properties' proofs do not depend on them
+    mods = ["Ark.Props." + pid]
+    srcp = os.path.join(LEAN, "Ark", "Props", pid + "Src.lean")
+    if os.path.exists(srcp):
+        names = names + theorems_in(srcp)
+        mods.append("Ark.Props." + pid + "Src")
     info["theorems"] = names
     info["obligations"] = len(names)
     # (re)write the audit file from the theorem list
-    body = "import Ark.Props.%s\n\n" % pid + "".join("#print axioms %s\n" % n for n in names)
+    body = "".join("import %s\n" % m for m in mods) + "\n" + "".join("#print axioms %s\n" % n for n in names)
     if not os.path.exists(audit) or open(audit).read() != body:
         os.makedirs(os.path.dirname(audit), exist_ok=True)
         with open(audit, "w") as f:
             f.write(body)
     t0 = time.time()
-    rc, log = lake_build(["Ark.Props." + pid])
+    rc, log = lake_build(mods)
     info["lake_build_s"] = round(time.time() - t0, 1)
     if rc != 0:
         errs = [l for l in log.splitlines() if "error" in l]
@@ -758,10 +765,12 @@ def main(argv):
                                    (" | source fragments the translator could not handle: " + "; ".join(fp)[:800]) if fp else ""),
                                "broken_theorems": proof_info.get("failed", []), "fragment_problems": fp, "ops": []})
         if tier == "thorough":
-            rc, out, err = sh(["lake", "env", "leanchecker", "Ark.Props." + pid], cwd=LEAN, timeout=1800)
-            proof_info["leanchecker_rc"] = rc
-            if rc != 0:
-                violations.append({"property": pid, "kind": "proof", "what": "leanchecker rejected Ark.Props.%s: %s" % (pid, (out + err)[-500:]), "ops": []})
+            lmods = ["Ark.Props." + pid] + (["Ark.Props." + pid + "Src"] if os.path.exists(os.path.join(LEAN, "Ark", "Props", pid + "Src.lean")) else [])
+            for lm in lmods:
+                rc, out, err = sh(["lake", "env", "leanchecker", lm], cwd=LEAN, timeout=1800)
+                proof_info["leanchecker_rc"] = max(rc, proof_info.get("leanchecker_rc", 0))
+                if rc != 0:
+                    violations.append({"property": pid, "kind": "proof", "what": "leanchecker rejected %s: %s" % (lm, (out + err)[-500:]), "ops": []})
         # 2. correspondence
         driver = build_driver()
         # run against a private copy of the driver so that a concurrent rebuild cannot disturb it
